@@ -56,8 +56,9 @@ def make(p):
             return torch.cat(cols, dim=1)
         X = torch.cat([X, onehots(n)], dim=1)
         Xv = torch.cat([Xv, onehots(Xv.shape[0])], dim=1)
-        Qn = torch.cat([torch.randn(40, d, generator=g), X[:10, :d]])
-        Q = torch.cat([Qn, torch.cat([onehots(40), X[:10, d:]])], dim=1)
+        nq = max(p.get('big', 50), 50) - 10      # a large batch crosses the row blocks of the categorical path too
+        Qn = torch.cat([torch.randn(nq, d, generator=g), X[:10, :d]])
+        Q = torch.cat([Qn, torch.cat([onehots(nq), X[:10, d:]])], dim=1)
         off, cidx = d, []
         for L_ in groups:
             cidx.append(torch.arange(off, off + L_))
@@ -208,9 +209,17 @@ def execute(chunk):
                 big_full = None
                 if p.get('big'):
                     big_full = Q                      # whole batch, predicted in one call below
-                    keep_all[64:] = False             # judged rows: the first 64 (minus near-threshold ones)
+                    if p.get('judge_last'):           # judged rows: 64 positions spread over the whole batch
+                        sel = np.zeros_like(keep_all)
+                        sel[np.unique(np.linspace(0, len(keep_all) - 1, 64).astype(int))] = True
+                    else:                             # judged rows: the first 64
+                        sel = np.zeros_like(keep_all)
+                        sel[:64] = True
+                    stats['near_excluded'] = int((sel & ~keep_all).sum())
+                    keep_all &= sel                   # (minus near-threshold ones)
+                else:
+                    stats['near_excluded'] = int((~keep_all).sum())
                 stats['rows'] = int(keep_all.sum())
-                stats['near_excluded'] = int((~keep_all[:64]).sum()) if p.get('big') else int((~keep_all).sum())
                 Qk = Q[torch.as_tensor(keep_all)]
                 Qk64 = Q64[keep_all]
                 nk = Qk.shape[0]
@@ -417,6 +426,12 @@ def gen_cases(run):
         cases.append(dict(family='large-batches', task='reg', mode='zero_one', kernel=list(kern), q=1.0, diag=r.random() < 0.5, adaptive=False,
                           bandwidth=5.0, iters=2, L=10 ** 6 if kn == 'l1' else r.choice([30, 10 ** 6]), n=80, d=3, method='random', trees=1, f=0.0, outputs=1,
                           classes=2, exact=False, big=big, dseed=r.randint(0, 10 ** 6)))
+    # ... and the row blocks of the categorical path (5,000 / 10,000 rows); the judged rows are spread over the whole batch here
+    for k, kn in enumerate(['l1', 'l2'] if run.tier == 'quick' else ['l1', 'l2', 'lpq', 'l1']):
+        kern = [kk for kk in KERNELS if kk[0] == kn][0]
+        cases.append(dict(family='large-batches', task='reg', mode='zero_one', kernel=list(kern), q=1.0, diag=False, adaptive=False, bandwidth=5.0,
+                          iters=1, L=10 ** 6, n=80, d=2, method='random', trees=1, f=0.0, outputs=1, classes=2, exact=False,
+                          big=[7100, 12100, 10050, 25100][k], cat=[3, 2], judge_last=True, dseed=r.randint(0, 10 ** 6)))
     return cases
 
 
